@@ -1003,7 +1003,16 @@ func searchOneShard(ctx context.Context, s zoekt.Searcher, q query.Q, opts *zoek
 		}
 	}()
 
-	return s.Search(ctx, q, opts)
+	sr, err = s.Search(ctx, q, opts)
+	if err != nil {
+		// A shard that fails to evaluate the query (for example a corrupt shard
+		// whose section offsets point outside of the file) is treated like a
+		// crashed shard: it is logged and counted in Stats.Crashes, and the
+		// results of the other shards are still returned.
+		logShardCrash("search", s, q, err, nil)
+		return &zoekt.SearchResult{Stats: zoekt.Stats{Crashes: 1}}, nil
+	}
+	return sr, nil
 }
 
 type shardListResult struct {
@@ -1024,6 +1033,12 @@ func listOneShard(ctx context.Context, s zoekt.Searcher, q query.Q, opts *zoekt.
 	}()
 
 	ms, err := s.List(ctx, q, opts)
+	if err != nil {
+		// Same as in searchOneShard: one failing shard must not fail the
+		// listing of the other shards.
+		logShardCrash("list", s, q, err, nil)
+		ms, err = &zoekt.RepoList{Crashes: 1}, nil
+	}
 	sink <- shardListResult{ms, err}
 }
 
